@@ -363,14 +363,18 @@ fn replay(path: &str) -> i32 {
             return 2;
         }
     };
+    let mode = std::env::var("VERIF_DELAY_MODE").ok().and_then(|s| s.parse().ok()).unwrap_or(1);
+    core::set_delay_mode(mode, 1);
+    replay_value(&v, path)
+}
+
+fn replay_value(v: &serde_json::Value, path: &str) -> i32 {
     let prop = v["property"].as_str().unwrap_or("").to_string();
     let sub = v["sub"].as_str().unwrap_or("").to_string();
     let case = &v["case"];
     let props: [&'static str; 19] = [
         "C01", "C07", "C08", "C09", "C10", "C18", "C02", "C03", "C04", "C05", "C06", "C14", "C16", "C17", "C20", "C11", "C19", "C12", "C15",
     ];
-    let mode = std::env::var("VERIF_DELAY_MODE").ok().and_then(|s| s.parse().ok()).unwrap_or(1);
-    core::set_delay_mode(mode, 1);
     if sub.starts_with("c08-race") || sub.starts_with("c15-readers") {
         core::TIME_SITES.store(true, std::sync::atomic::Ordering::SeqCst);
     }
@@ -440,8 +444,104 @@ fn replay(path: &str) -> i32 {
     2
 }
 
+// ---------------------------------------------------------------------------
+// Miri tier of the system-level engine (thorough): `--gen-batch <ID> <n> <seed>` samples
+// cases from the multi-threaded class-M/S/F sub-checks of the property with their own
+// proptest strategies, evaluates each natively and keeps the small ones that pass (a
+// case that fails natively is left to the native search to report); `--miri-batch <file>`
+// evaluates every case of the file once with the same oracles: the whole simulator -
+// executor, mailboxes, ports, scheduler - then runs on real threads under Miri's
+// scheduler, weak-memory emulation, data-race detector and aliasing checks.
+
+fn sample_batch<S: SubCheck>(s: &S, prop: &str, n: usize, seed: u64, out: &mut Vec<String>) {
+    use proptest::strategy::{Strategy, ValueTree};
+    use proptest::test_runner::{Config, RngSeed, TestRunner};
+    let mut runner = TestRunner::new(Config {
+        rng_seed: RngSeed::Fixed(core::mix(seed, 0x51B7)),
+        failure_persistence: None,
+        ..Config::default()
+    });
+    let strat = s.strategy();
+    // deterministic pre-filter: small (serialised size) and passing natively
+    let max_len: usize = std::env::var("SIMLAB_MIRI_CASE_LEN").ok().and_then(|s| s.parse().ok()).unwrap_or(4200);
+    let (mut kept, mut tries) = (0, 0);
+    while kept < n && tries < n * 40 {
+        tries += 1;
+        let Ok(t) = strat.new_tree(&mut runner) else { continue };
+        let c = t.current();
+        let line = serde_json::json!({"property": prop, "sub": s.name(), "case": c}).to_string();
+        if line.len() > max_len {
+            continue;
+        }
+        if matches!(s.eval(&c), Verdict::Pass { .. }) {
+            kept += 1;
+            out.push(line);
+        }
+    }
+}
+
+fn gen_batch(prop: &'static str, n: usize, seed: u64) -> i32 {
+    core::set_delay_mode(0, seed);
+    core::IS_DRIVER.with(|d| d.set(true));
+    let mut out = Vec::new();
+    for (s, _, _, _) in m_subs(prop) {
+        if s.mt.is_some() && s.focus != MFocus::Wide && !s.name.ends_with("mt8") && !s.name.ends_with("mt16") {
+            sample_batch(&s, prop, n, seed, &mut out);
+        }
+    }
+    for (s, _, _, _) in s_subs(prop) {
+        if s.mt.is_some() && !s.name.ends_with("mt8") && !s.name.ends_with("mt16") {
+            sample_batch(&s, prop, n, seed, &mut out);
+        }
+    }
+    for (s, _, _, _) in f_subs(prop) {
+        if s.mt.is_some() && !s.spin && !s.name.ends_with("mt8") {
+            sample_batch(&s, prop, n, seed, &mut out);
+        }
+    }
+    for l in out {
+        println!("{}", l);
+    }
+    0
+}
+
+fn miri_batch(path: &str) -> i32 {
+    let txt = match std::fs::read_to_string(path) {
+        Ok(t) => t,
+        Err(e) => {
+            eprintln!("cannot read {}: {}", path, e);
+            return 2;
+        }
+    };
+    core::set_delay_mode(0, 1);
+    runner::BATCH_MODE.store(true, std::sync::atomic::Ordering::SeqCst);
+    let only: Option<usize> = std::env::var("LOWLAB_ONLY_LINE").ok().and_then(|s| s.parse().ok());
+    let (mut n, mut bad) = (0usize, 0usize);
+    for (i, l) in txt.lines().enumerate() {
+        if only.map_or(false, |k| k != i) {
+            continue;
+        }
+        let Ok(v) = serde_json::from_str::<serde_json::Value>(l) else { continue };
+        println!("MIRI-CASE-BEGIN {} {}", i, v["sub"].as_str().unwrap_or(""));
+        if replay_value(&v, &i.to_string()) != 0 {
+            bad += 1;
+        }
+        n += 1;
+    }
+    println!("MIRI-BATCH-DONE {} {}", n, bad);
+    if bad > 0 {
+        1
+    } else {
+        0
+    }
+}
+
 fn main() {
     let args: Vec<String> = std::env::args().collect();
+    // batch modes: scripted panics of fault cases are expected, keep them quiet
+    if args.iter().any(|a| a == "--gen-batch" || a == "--miri-batch") && std::env::var("SIMLAB_VERBOSE_PANICS").is_err() {
+        std::panic::set_hook(Box::new(|_| {}));
+    }
     let mut tier = std::env::var("VERIF_TIER").unwrap_or_else(|_| "quick".to_string());
     let mut seed: u64 = std::env::var("VERIF_SEED")
         .ok()
@@ -461,6 +561,15 @@ fn main() {
             }
             "--replay" => {
                 std::process::exit(replay(&args[i + 1]));
+            }
+            "--gen-batch" => {
+                let p: &'static str = Box::leak(args[i + 1].clone().into_boxed_str());
+                let n = args.get(i + 2).and_then(|s| s.parse().ok()).unwrap_or(10);
+                let sd = args.get(i + 3).and_then(|s| s.parse().ok()).unwrap_or(1);
+                std::process::exit(gen_batch(p, n, sd));
+            }
+            "--miri-batch" => {
+                std::process::exit(miri_batch(&args[i + 1]));
             }
             "--dump" => {
                 let txt = std::fs::read_to_string(&args[i + 1]).unwrap();
